@@ -275,7 +275,7 @@ std::string case_to_text(const Case &c, const Verdict &v, uint64_t hash) {
   o << "datadesc " << hex(c.data_desc) << "\n";
   o << "data " << hex(c.data) << "\n";
   for (auto &f : c.files)
-    o << "file " << hex(f.name) << " " << f.type << " " << f.mode << " " << f.nlink_extra << " " << f.atime_s << " " << f.atime_ns << " " << f.mtime_s << " " << f.mtime_ns << " " << (int)f.noread << " " << hex(f.data) << "\n";
+    o << "file " << hex(f.name) << " " << f.type << " " << f.mode << " " << f.nlink_extra << " " << f.atime_s << " " << f.atime_ns << " " << f.mtime_s << " " << f.mtime_ns << " " << (int)f.noread << " V" << f.visible << " " << f.grow_at << " " << hex(f.data) << "\n";
   for (auto &r : c.runs) {
     o << "run\n";
     o << "# " << r.brief() << "\n";
@@ -318,6 +318,9 @@ bool case_from_text(const std::string &text, Case *c, Verdict *v, uint64_t *hash
     else if (k == "file") {
       FileSpec f; std::string hn, hd; int nr;
       is >> hn >> f.type >> f.mode >> f.nlink_extra >> f.atime_s >> f.atime_ns >> f.mtime_s >> f.mtime_ns >> nr >> hd;
+      if (!hd.empty() && hd[0] == 'V') {     // growing-file fields "V<visible> <grow_at>" precede the (possibly empty) content; older replay files lack them
+        f.visible = atoll(hd.c_str() + 1); is >> f.grow_at; hd.clear(); is >> hd;
+      }
       f.name = unhex(hn); f.data = unhex(hd); f.noread = nr;
       c->files.push_back(f);
     }
